@@ -32,6 +32,6 @@ WHAT TO PRODUCE
 
 ENVIRONMENT
 - No network. Every go command needs: `export GOFLAGS=-mod=mod GOPROXY=off` (leave GOTOOLCHAIN unset).
-- Do not commit. Do not create other worktrees. Keep everything inside {wt}.
+- Do not commit. Do not create other worktrees. NEVER use `git stash` (the stash is shared by all worktrees of the repository): use `git diff > file` and `git apply -R file` instead. Keep everything inside {wt}.
 
 Finish with a short report (a few lines): the change and the argument that the property still holds.""")
